@@ -46,10 +46,12 @@ class C04(Check):
         if tier == 'quick':
             return {'W': '1..6', 'N': '1..2', 'K': '2..3', 'single series length': 'W..W+3',
                     'joint': '1..3 series, lengths W..W+2 independently (3 series: W..W+1)', 'iteration_limit': '1..2',
-                    'labels': 'positional pattern (all sizes) and fully symbolic (<=4 stacked points, K=2)'}
+                    'labels': 'positional pattern (all sizes) and fully symbolic (<=4 stacked points, K=2)',
+                    'call history': 'two consecutive front-end calls on the same arrays, window sizes 1..3 each'}
         return {'W': '1..9', 'N': '1..2', 'K': '2..3', 'single series length': 'W..W+4',
                 'joint': '1..4 series, lengths W..W+2 independently', 'iteration_limit': '1..2',
-                'labels': 'positional pattern (all sizes) and fully symbolic (<=5 stacked points, K=2..3)'}
+                'labels': 'positional pattern (all sizes) and fully symbolic (<=5 stacked points, K=2..3)',
+                'call history': 'two consecutive front-end calls on the same arrays, window sizes 1..5 (joint 1..4) each'}
 
     def configs(self, tier):
         q = tier == 'quick'
@@ -61,6 +63,12 @@ class C04(Check):
         for S in ([1, 2, 3] if q else [1, 2, 3, 4]):
             cfgs.append(Config('joint_pattern_S%d' % S, self.joint, {'S': S, 'Wmax': Wmax, 'dT': 2 if S < 3 else 1, 'sym': False},
                                split=3, witness_every=31))
+        # call history: the same caller-owned arrays are passed twice with different window sizes
+        # (a parameter sweep); the second result must be judged exactly like a first one
+        cfgs.append(Config('single_twice', self.twice, {'Wmax': 3 if q else 5, 'dT': 1 if q else 2, 'joint': False},
+                           split=3, witness_every=13))
+        cfgs.append(Config('joint_twice', self.twice, {'Wmax': 3 if q else 4, 'dT': 1, 'joint': True},
+                           split=3, witness_every=13))
         for S in ([2] if q else [2, 3]):
             cfgs.append(Config('joint_symbolic_S%d' % S, self.joint, {'S': S, 'Wmax': 2, 'dT': 1, 'sym': True},
                                split=3, witness_every=31))
@@ -118,6 +126,39 @@ class C04(Check):
             c.prove('joint_labels_shape_and_margins', False, detail={'n_lists': repr(len(pl))})
             return
         self._judge(c, ml, res, pl, lens, W, N, K, 'joint')
+
+    def twice(self, c, Wmax, dT, joint):
+        Rp = self.R
+        W1 = int(c.int('W_first', 1, Wmax))
+        W = int(c.int('W', 1, Wmax))
+        N = int(c.int('N', 1, 2))
+        K = 2
+        S = 2 if joint else 1
+        lens = [int(c.int('L_%d' % s, max(W, W1), max(W, W1) + dT)) for s in range(S)]
+        series = [np.zeros((L, N)) for L in lens]
+        for a in series:
+            a._b.owner = 'caller'
+        install_la()
+        which = 'joint' if joint else 'single'
+        fe = Rp.front_end.ticc_joint_labels if joint else Rp.front_end.ticc_labels
+        for (w, first) in ((W1, True), (W, False)):
+            c.notes.update({'W': w, 'N': N, 'K': K, 'lens': lens, 'limit': 1, 'joint': joint})
+            if not first:
+                c.notes['W_first'] = W1
+            ml = MainLoop(Rp, c, K, N * w, modes={'optimise': 'real', 'initial': 'summary'},
+                          label_hook=self._hook(K, False))
+            ml.s_initial = lambda k, d: [i % K for i in range(len(d))]
+            with ml:
+                ok, res = guarded(c, '%s_labels_shape_and_margins' % which, fe, list(series) if joint else series[0],
+                                  window_size=w, num_clusters=K, iteration_limit=1, min_cluster_size=1,
+                                  sparsity_weight=0.1, label_switching_cost=1.0)
+            if not ok:
+                return
+            pl = res.point_labels if joint else [res.point_labels]
+            if not isinstance(pl, list) or len(pl) != S:
+                c.prove('%s_labels_shape_and_margins' % which, False, detail={'n_lists': repr(len(pl))})
+                return
+            self._judge(c, ml, res, pl, lens, w, N, K, which)
 
     def _judge(self, c, ml, res, label_lists, lens, W, N, K, which):
         joint = list(ml.relabel_states[-1].point_labels) if ml.relabel_states else None
